@@ -4841,6 +4841,9 @@ class Pack:
         base_type = type
         base_obj = obj
         delta_stack = []
+        # Offsets visited so far, to detect deltas that (through a crafted or
+        # damaged index) refer to each other in a cycle.
+        seen_offsets = {offset}
         while base_type in DELTA_TYPES:
             prev_offset = base_offset
             if get_ref is None:
@@ -4858,6 +4861,7 @@ class Pack:
                 base_offset = base_offset - delta_offset
                 base_type, base_obj = self.data.get_object_at(base_offset)
                 assert isinstance(base_type, int)
+                seen_offsets.add(base_offset)
             elif base_type == REF_DELTA:
                 (basename, delta) = base_obj
                 assert (
@@ -4868,8 +4872,11 @@ class Pack:
                 assert isinstance(base_type, int)
                 # base_offset_temp can be None for thin packs (external references)
                 base_offset = base_offset_temp
-                if base_offset == prev_offset:  # object is based on itself
-                    raise UnresolvedDeltas([basename])
+                if base_offset is not None:
+                    if base_offset in seen_offsets:
+                        # object is based on itself, directly or indirectly
+                        raise UnresolvedDeltas([basename])
+                    seen_offsets.add(base_offset)
             else:
                 raise AssertionError(f"Unexpected delta type: {base_type}")
             delta_stack.append((prev_offset, base_type, delta))
